@@ -261,6 +261,24 @@ def run(tier):
     # ---- string_size scans for the first NUL --------------------------------------------------------------------------
     ss = fns.get(RC + "string_size")
     ck.require(ss is not None and ss.get("unsafe"), "string_size is an unsafe fn")
+    if ss is not None:
+        # the terminator is the first byte *equal to* 0: every comparison of a loaded byte in string_size (and its closures) is `== 0` / `!= 0`
+        bodies = [ss] + [g for q, g in fns.items() if q.startswith(RC + "string_size::{closure")]
+        cmps = []
+        for g in bodies:
+            for pb in [g["body"]]:
+                b = mir.Body(g, pb)
+                for i2 in sorted(b.live_blocks()):
+                    for st_ in b.blocks[i2]["s"]:
+                        if st_["k"] == "assign" and st_["r"]["k"] == "bin" and st_["r"]["op"] in ("Eq", "Ne", "Lt", "Le", "Gt", "Ge"):
+                            a_, b_ = b.origin_operand(st_["r"]["a"]), b.origin_operand(st_["r"]["b"])
+                            tys = (a_[2] if a_[0] == "const" else "", b_[2] if b_[0] == "const" else "")
+                            if any(t in ("i8", "u8") for t in tys):
+                                cmps.append((st_["r"]["op"], a_, b_))
+        good = bool(cmps) and all(op in ("Eq", "Ne") and ((a_[0] == "const" and a_[1] == 0) or (b_[0] == "const" and b_[1] == 0)) for op, a_, b_ in cmps)
+        ck.ob("S6-terminator-test-is-equality-with-zero", "cglue/string_size", good,
+              "string_size must look for the first byte equal to 0: byte comparisons found %s" % [(op, mir.fmt(a_)[:30], mir.fmt(b_)[:30]) for op, a_, b_ in cmps],
+              sample={"comparisons": [op for op, _, _ in cmps]})
     # ---- S5 ------------------------------------------------------------------------------------------------------
     cs = mine.get("<cglue::repr_cstring::ReprCStr<'a> as std::convert::From<&'a std::ffi::CStr>>::from")
     if ck.require(cs is not None, "From<&CStr> for ReprCStr"):
